@@ -24,7 +24,7 @@ CHECKS = {
    text="The real corebgp (mechanically rewritten onto the vrt scheduler) is executed over the product of connection scripts (8 failure/success scripts on the first inbound and the first outbound connection), identifier dominance, active/passive mode, API tails (Close, DeletePeer, DeletePeer+AddPeer) and trigger points; for each scenario every schedule within the delay bound is enumerated and a monitor automaton checks OnEstablished/OnClose alternation and non-overlap, handler placement, GetCapabilities/OnOpenMessage per connection and session markers per connection. Complete inside the bound and the scenario set, silent outside.",
    note="trusted: vinstr/vrt/vnet; bound 1 (quick) / 2 (thorough) deviations from the canonical schedule"),
  "C07": dict(level="model_checking", design="4/C07",
-   technique="stateless model checking of the implementation: delay-bounded exhaustive schedule exploration of scripted two-connection collision scenarios",
+   technique="stateless model checking of the implementation: delay-bounded exhaustive schedule exploration of scripted two-connection collision scenarios; the 20 forced-collision cases are also run on the Go runtime over loopback TCP against the unrewritten package and the outcomes compared (traces_validated_against_impl)",
    text="For 4 identifier/AS configurations x both arrival orders x 4 scenario shapes the remote's script forces a collision (or a precedence situation) and all schedules within the delay bound (2 quick / 3 thorough) of the two FSMs, manager, readers are enumerated on the real code; the oracle names the connection that must survive per RFC 4271 6.8 / RFC 6286 and requires Cease+EOF on the other, an untouched survivor that establishes and still delivers UPDATEs.",
    note="trusted: vinstr/vrt/vnet; dominance judged only where the remote's script removes TCP-level ambiguity"),
  "C10": dict(level="model_checking", design="4/C10",
